@@ -1634,6 +1634,26 @@ func (g *groupConsumer) handleJoinResp(resp *kmsg.JoinGroupResponse) (restart bo
 			return true, "", nil, nil
 		case kerr.UnknownMemberID:
 			g.memberGen.storeMember("")
+			// A cooperative member keeps its assignment while it
+			// rejoins. If the coordinator answers that it does not
+			// know us, we were removed from the group (e.g. we did
+			// not rejoin within the rebalance timeout) and what we
+			// hold has been, or will be, given to other members.
+			// Silently rejoining as a new member would keep
+			// consuming those partitions from our own positions
+			// and, if we are assigned one of them again, never
+			// refetch its committed offset. Fail the session
+			// instead: the manage loop calls onLost for everything
+			// we hold and invalidates it before rejoining, exactly
+			// as when a heartbeat tells us we were removed.
+			if g.cooperative.Load() {
+				for _, ps := range g.ownedAssignment() {
+					if len(ps) > 0 {
+						g.cfg.logger.Log(LogLevelInfo, "join returned UnknownMemberID while we still hold partitions; abandoning them before rejoining", "group", g.cfg.group)
+						return false, "", nil, err
+					}
+				}
+			}
 			g.cfg.logger.Log(LogLevelInfo, "join returned UnknownMemberID, rejoining without a member id", "group", g.cfg.group)
 			return true, "", nil, nil
 		}
